@@ -58,6 +58,8 @@ fn main() {
             "C05" => props::c05::replay(&v),
             "C09" | "C10" => props::c09::replay(&v),
             "C11" => props::c11::replay(&v),
+            "C12" => props::c12::replay(&v),
+            "C13" => props::c13::replay(&v),
             "C14" => props::c14::replay(&v),
             "C17" => props::c17::replay(&v),
             "C18" => props::c18::replay(&v),
@@ -103,6 +105,8 @@ fn main() {
         "C09" => props::c09::run(&ctx),
         "C10" => props::c10::run(&ctx),
         "C11" => props::c11::run(&ctx),
+        "C12" => props::c12::run(&ctx),
+        "C13" => props::c13::run(&ctx),
         "C14" => props::c14::run(&ctx),
         "C17" => props::c17::run(&ctx),
         "C18" => props::c18::run(&ctx),
